@@ -8,10 +8,12 @@ Oracle (implementation only): (1) every generated enum: the emitted C / Fortran 
 small Python evaluator and compared with the value of the C++ original; (2) batches: the C++ original is compiled
 with g++, the emitted C text with gcc -std=c99, the emitted Fortran text with gfortran -std=f2008, values compared.
 """
+import io
 import json
 import os
 import re
 import subprocess
+import sys
 import tempfile
 import types
 
@@ -462,6 +464,9 @@ def build_real(scope, decl):
     ns = lib.add_namespace("ns1")
     cls = ns.add_class("Cls")
     parent = {"lib": lib, "ns": ns, "cls": cls}[scope]
+    if parent.nodename == "class":
+        # wrapp.wrap_namespace evaluates this template for every class before any enum is wrapped
+        parent.eval_template("PY_PyTypeObject")
     return parent, parent.add_enum(decl)
 
 
@@ -507,9 +512,25 @@ def parse_f_member(line):
 _EMIT_MODE = {"mode": "wrap_enum"}
 
 
+def render_real(w, items, indent, linelen, cont):
+    """The real util.WrapperMixin.write_lines on the emitter's items -> physical lines."""
+    w.indent, w.linelen, w.cont = indent, linelen, cont
+    fp = io.StringIO()
+    w.write_lines(fp, items)
+    text = fp.getvalue()
+    if text == "":
+        return []
+    lines = text.split("\n")
+    if lines[-1] == "":
+        lines.pop()
+    return lines
+
+
 def emit(node):
-    """Member lines as the real emitters write them: (C enum name, raw C lines, raw Fortran lines)."""
-    from shroud import wrapc, wrapf, util
+    """What the real emitters write.  dict: c_enum, c_raw / f_raw (member lines), and - when the emitters can be
+    called stand-alone - c_items / f_items / py_items (the strings appended to enum_impl) with c_block / f_block /
+    py_lines (the same items through the real write_lines: header at indent 0, module body at indent 1)."""
+    from shroud import wrapc, wrapf, wrapp, util
     try:
         wc = object.__new__(wrapc.Wrapc)
         wc.enum_impl = []
@@ -525,7 +546,7 @@ def emit(node):
         f_raw = [l for l in fi.enum_impl if isinstance(l, str) and l.startswith("integer(C_INT), parameter :: ")]
         if len(f_raw) != len(c_raw):
             raise AttributeError("unexpected emitter output shape")
-        return c_enum, c_raw, f_raw
+        res = dict(c_enum=c_enum, c_raw=c_raw, f_raw=f_raw, c_items=list(out), f_items=list(fi.enum_impl))
     except (AttributeError, TypeError, IndexError, ValueError):
         # emitters not callable stand-alone: same format strings on _fmtmembers
         _EMIT_MODE["mode"] = "fmtmembers"
@@ -540,19 +561,45 @@ def emit(node):
             util.append_format(f_raw, "integer(C_INT), parameter :: {F_enum_member} = {F_value}", fmt)
         if c_raw:
             c_raw[-1] = c_raw[-1][:-1]
-        return node.fmtdict.C_enum, c_raw, f_raw
+        return dict(c_enum=node.fmtdict.C_enum, c_raw=c_raw, f_raw=f_raw)
+    try:
+        opt = node.options
+        res["c_block"] = render_real(wc, res["c_items"], 0, opt.C_line_length, "")
+        res["f_block"] = render_real(wf, res["f_items"], 1, opt.F_line_length, " &")
+        wp = object.__new__(wrapp.Wrapp)
+        wp.enum_impl = []
+        wp.wrap_enum(node)
+        res["py_items"] = list(wp.enum_impl)
+        res["py_lines"] = render_real(wp, res["py_items"], 0, opt.C_line_length, "")
+    except (AttributeError, TypeError, IndexError, ValueError, KeyError) as ex:
+        _EMIT_MODE["blocks"] = "unavailable: %s: %s" % (type(ex).__name__, ex)
+    return res
 
 
 def real_side(it):
-    """Fills it with the real tree / emitted lines / driver request.  Returns None or ("crash"|"encode", detail)."""
+    """Fills it with the real tree / emitted lines / driver requests.  Returns None or ("crash"|"encode", detail);
+    after "encode" the emitted lines are present (the tree has a node the driver protocol cannot carry)."""
     e = common.enc
     try:
         parent, node = build_real(it["scope"], it["decl"])
     except Exception as ex:  # noqa
         return ("crash", "%s: %s" % (type(ex).__name__, ex))
     try:
-        cpre = parent.fmtdict.C_prefix + parent.fmtdict.C_name_scope
-        fpre = parent.fmtdict.F_name_scope
+        em = emit(node)
+    except Exception as ex:  # noqa
+        return ("crash", "emit %s: %s" % (type(ex).__name__, ex))
+    it.update(em)
+    it["c_lines"] = [parse_c_member(l) for l in em["c_raw"]]
+    it["f_lines"] = [parse_f_member(l) for l in em["f_raw"]]
+    it["in_class"] = parent.nodename == "class"
+    try:
+        pf = parent.fmtdict
+        cpre = pf.C_prefix + pf.C_name_scope
+        fpre = pf.F_name_scope
+        # EnumNode: namespace_scope of the parent, plus "Class::" when the format scope has a cxx_class
+        nss = pf.namespace_scope + (pf.cxx_class + "::" if pf.get("cxx_class") else "")
+        pytype = pf.PY_PyTypeObject if it["in_class"] else ""
+        it["pytype"] = pytype
         ms = []
         for m in node.ast.members:
             if m.value is None:
@@ -560,15 +607,10 @@ def real_side(it):
             else:
                 ms.append(e(m.name) + "=" + ";".join(enc_expr(m.value, [])))
         it["request"] = " ".join(["enum", e(cpre), e(fpre), e(it["ename"]), "1" if node.ast.scope is not None else "0"] + ms)
+        it["block_request"] = " ".join(["block", e(cpre), e(fpre), e(it["ename"]), e(node.ast.scope or ""), e(nss),
+                                        "1" if it["in_class"] else "0", e(pytype)] + ms)
     except ValueError as ex:
         return ("encode", str(ex))
-    try:
-        c_enum, c_raw, f_raw = emit(node)
-    except Exception as ex:  # noqa
-        return ("crash", "emit %s: %s" % (type(ex).__name__, ex))
-    it["c_enum"], it["c_raw"], it["f_raw"] = c_enum, c_raw, f_raw
-    it["c_lines"] = [parse_c_member(l) for l in c_raw]
-    it["f_lines"] = [parse_f_member(l) for l in f_raw]
     return None
 
 
@@ -606,8 +648,8 @@ def yaml_for(scope, decl):
 
 
 def whole_program(it, d):
-    """Run main_with_args on a YAML holding the enum; return (c member lines, fortran member lines) from the
-    generated files, or a string describing why not."""
+    """Run main_with_args on a YAML holding the enum; return dict(c_members, f_members, c_block, f_block) read from
+    the generated files (blocks: blank line, comment, ... as written), or a string describing why not."""
     from tools import shroudrun
     od = tempfile.mkdtemp(prefix="wp", dir=d)
     try:
@@ -615,31 +657,59 @@ def whole_program(it, d):
         _cfg, exc, _out = shroudrun.run_inproc([p], od)
         if exc is not None:
             return "shroud raised %s: %s" % (type(exc).__name__, exc)
-        c_found, f_found = None, None
+        res = {}
         for fn in sorted(os.listdir(od)):
             if fn.endswith(".h"):
                 lines = open(os.path.join(od, fn)).read().split("\n")
                 for i, l in enumerate(lines):
                     if l.strip() == "enum %s {" % it["c_enum"]:
-                        body = []
-                        for l2 in lines[i + 1:]:
-                            if l2.strip() == "};":
-                                break
-                            body.append(l2.strip())
-                        c_found = body
+                        body, j = [], i + 1
+                        while j < len(lines) and lines[j].strip() != "};":
+                            body.append(lines[j].strip())
+                            j += 1
+                        res["c_members"] = body
+                        res["c_block"] = lines[max(0, i - 2):j + 1]
             elif fn.endswith(".f"):
                 lines = open(os.path.join(od, fn)).read().split("\n")
                 for i, l in enumerate(lines):
                     if l.strip().startswith("!  enum "):
-                        body = []
-                        for l2 in lines[i + 1:]:
-                            if not l2.strip().startswith("integer(C_INT), parameter :: "):
-                                break
-                            body.append(l2.strip())
-                        f_found = body
-        if c_found is None or f_found is None:
+                        body, j = [], i + 1
+                        while j < len(lines) and lines[j].strip().startswith("integer(C_INT), parameter :: "):
+                            body.append(lines[j].strip())
+                            j += 1
+                        res["f_members"] = body
+                        res["f_block"] = lines[max(0, i - 1):j]
+        if "c_members" not in res or "f_members" not in res:
             return "enum not found in generated files %s" % sorted(os.listdir(od))
-        return c_found, f_found
+        return res
+    finally:
+        common.rmtree(od)
+
+
+def python_name_collision(d):
+    """Observation (not a failure of C11): the Python wrapper adds the bare member names to one module object."""
+    from tools import shroudrun
+    od = tempfile.mkdtemp(prefix="pc", dir=d)
+    try:
+        y = ("library: library\noptions:\n  wrap_python: true\n  wrap_lua: false\n  wrap_c: false\n  wrap_fortran: false\n"
+             "declarations:\n- decl: enum class E1 { A = 1 }\n- decl: enum class E2 { A = 2 }\n")
+        p = shroudrun.write_yaml(od, "t.yaml", y)
+        _cfg, exc, _out = shroudrun.run_inproc([p], od)
+        if exc is not None:
+            return {"measured": "shroud raised %s: %s" % (type(exc).__name__, exc)}
+        hits = []
+        for fn in sorted(os.listdir(od)):
+            if fn.endswith(".cpp"):
+                for l in open(os.path.join(od, fn)).read().split("\n"):
+                    if "PyModule_AddIntConstant" in l:
+                        hits.append("%s: %s" % (fn, l.strip()))
+        same = [h for h in hits if '"A"' in h]
+        return {"input": "enum class E1 { A = 1 }; enum class E2 { A = 2 } at library scope", "generated": hits,
+                "finding": ("Python constant names are the bare member names added to one module object: %d "
+                            "PyModule_AddIntConstant(m, \"A\", ...) calls are generated for the two enumerations, so after import "
+                            "module.A is the value of the last one (E2::A = 2) and E1::A = 1 is not reachable; each written value is "
+                            "the right C++ enumerator, the names collide" % len(same)) if len(same) > 1 else
+                           "no collision measured (%d lines with \"A\")" % len(same)}
     finally:
         common.rmtree(od)
 
@@ -677,22 +747,25 @@ def _finish(sub, exe, items):
     return res
 
 
+def plain_decl(it):
+    decl = it["decl"].strip()
+    return decl[:-1] if decl.endswith(";") else decl
+
+
 def run_cxx(items, d):
     sub = tempfile.mkdtemp(prefix="cxx", dir=d)
     src = ["#include <cstdio>"]
     for it in items:
-        decl = it["decl"].strip()
-        if decl.endswith(";"):
-            decl = decl[:-1]
-        src.append("namespace t%d { %s; }" % (it["idx"], decl))
+        src.append("namespace t%d { %s %s; }" % (it["idx"], it.get("prelude", ""), plain_decl(it)))
     src.append("int main() {")
     for it in items:
         for k, (n, _t) in enumerate(it["members"]):
-            src.append('  std::printf("%%d %%d %%ld\\n", %d, %d, static_cast<long>(t%d::%s::%s));'
+            src.append('  std::printf("%%d %%d %%lld\\n", %d, %d, static_cast<long long>(t%d::%s::%s));'
                        % (it["idx"], k, it["idx"], it["ename"], n))
     src.append("  return 0;\n}")
     open(os.path.join(sub, "o.cpp"), "w").write("\n".join(src) + "\n")
-    rc, out = _sh(["g++", "-std=c++11", "-w", "-O0", "o.cpp", "-o", "prog"], sub)
+    std = "c++14" if any(it.get("cxxstd") == "c++14" for it in items) else "c++11"
+    rc, out = _sh(["g++", "-std=" + std, "-w", "-O0", "o.cpp", "-o", "prog"], sub)
     if rc != 0:
         raise CompileError(out[:800])
     return _finish(sub, "prog", items)
@@ -711,7 +784,7 @@ def run_c(items, d):
         i = it["idx"]
         src = ["#include <stdio.h>", c_header_text(it), "void zq_p%d(void) {" % i]
         for k, (n, _v) in enumerate(it["c_lines"]):
-            src.append('  printf("%%d %%d %%ld\\n", %d, %d, (long) %s);' % (i, k, n))
+            src.append('  printf("%%d %%d %%lld\\n", %d, %d, (long long) %s);' % (i, k, n))
         src.append("}")
         fn = "e%d.c" % i
         open(os.path.join(sub, fn), "w").write("\n".join(src) + "\n")
@@ -755,61 +828,424 @@ def run_f(items, d):
     return _finish(sub, "prog", items)
 
 
-RUNNERS = {"cxx": run_cxx, "c": run_c, "f": run_f}
+def cxx_in_scope(it):
+    """The C++ original where the YAML places it: library scope, namespace ns1, class ns1::Cls."""
+    decl = plain_decl(it)
+    if it["scope"] == "lib":
+        return decl + ";"
+    if it["scope"] == "ns":
+        return "namespace ns1 { %s; }" % decl
+    return "namespace ns1 { class Cls { public: %s; }; }" % decl
 
 
-def compile_batch(items, d):
-    """{idx: {"cxx": values | "error: ...", "c": ..., "f": ...}}; a failing batch is bisected to single enums."""
+PY_READER = r"""
+import importlib.util, json, sys
+spec = importlib.util.spec_from_file_location("zqext", sys.argv[1])
+mod = importlib.util.module_from_spec(spec)
+spec.loader.exec_module(mod)
+for i, incls, names in json.load(open(sys.argv[2])):
+    holder = getattr(mod, "t%d" % i)
+    if incls:
+        holder = holder.Cls
+    for k, n in enumerate(names):
+        print(i, k, getattr(holder, n))
+"""
+
+
+def py_ext_source(items):
+    src = ["#include <Python.h>"]
+    for it in items:
+        i = it["idx"]
+        pyt = it.get("pytype") or "PY_Cls_Type"
+        src += ["namespace t%d {" % i, it.get("prelude", ""), cxx_in_scope(it),
+                "static PyTypeObject %s = {PyVarObject_HEAD_INIT(NULL, 0)};" % pyt,
+                "static void add(PyObject *m) {"]
+        src += it["py_lines"]          # the real wrapp.wrap_enum items through the real write_lines
+        src += ["}",
+                "static int init(PyObject *top) {",
+                '  PyObject *mi = PyModule_New("t%d");' % i,
+                "  if (mi == NULL) return -1;",
+                '  %s.tp_name = "t%d.Cls"; %s.tp_basicsize = sizeof(PyObject); %s.tp_flags = Py_TPFLAGS_DEFAULT;' % (pyt, i, pyt, pyt),
+                "  if (PyType_Ready(&%s) < 0) return -1;" % pyt,
+                "  add(mi);",
+                "  if (PyErr_Occurred()) return -1;",
+                "  PyType_Modified(&%s);" % pyt,
+                "  Py_INCREF(&%s);" % pyt,
+                '  if (PyModule_AddObject(mi, "Cls", (PyObject *) &%s) < 0) return -1;' % pyt,
+                '  return PyModule_AddObject(top, "t%d", mi);' % i,
+                "}", "}"]
+    src += ['static struct PyModuleDef zq_def = {PyModuleDef_HEAD_INIT, "zqext", NULL, -1, NULL};',
+            "PyMODINIT_FUNC PyInit_zqext(void) {",
+            "  PyObject *top = PyModule_Create(&zq_def);",
+            "  if (top == NULL) return NULL;"]
+    src += ["  if (t%d::init(top) < 0) return NULL;" % it["idx"] for it in items]
+    src += ["  return top;", "}"]
+    return "\n".join(src) + "\n"
+
+
+def run_py(items, d):
+    """CPython extension holding, per enum, the C++ original in its scope and the real emitted Python lines."""
+    import sysconfig
+    sub = tempfile.mkdtemp(prefix="py", dir=d)
+    for it in items:
+        if "py_lines" not in it:
+            raise CompileError("no emitted Python lines for this enumeration")
+    open(os.path.join(sub, "ext.cpp"), "w").write(py_ext_source(items))
+    std = "c++14" if any(it.get("cxxstd") == "c++14" for it in items) else "c++11"
+    rc, out = _sh(["g++", "-std=" + std, "-shared", "-fPIC", "-w", "-O0", "-I" + sysconfig.get_paths()["include"],
+                   "ext.cpp", "-o", "zqext.so"], sub)
+    if rc != 0:
+        raise CompileError(out[:800])
+    open(os.path.join(sub, "reader.py"), "w").write(PY_READER)
+    json.dump([[it["idx"], bool(it.get("in_class")), [n for n, _t in it["members"]]] for it in items],
+              open(os.path.join(sub, "spec.json"), "w"))
+    rc, out = _sh([sys.executable, "reader.py", os.path.join(sub, "zqext.so"), "spec.json"], sub)
+    if rc != 0:
+        raise CompileError("import/read failed rc=%s %s" % (rc, out[-400:]))
+    res = _parse_out(out, items)
+    for it in items:
+        if len(res[it["idx"]]) != len(it["members"]):
+            raise CompileError("extension gave %d values for %d members" % (len(res[it["idx"]]), len(it["members"])))
+    return res
+
+
+RUNNERS = {"cxx": run_cxx, "c": run_c, "f": run_f, "py": run_py}
+NOT_RUN = "not run: the C++ original does not compile"
+
+
+def compile_batch(items, d, langs=("cxx", "c", "f", "py")):
+    """{idx: {"cxx": values | "error: ...", "c": ..., "f": ..., "py": ...}}; a failing batch is bisected to single
+    enums.  The C++ original goes first; the emitted texts are only tried for originals that compile."""
     res = {it["idx"]: {} for it in items}
-    for lang, fn in RUNNERS.items():
+    todo = list(items)
+    for lang in langs:
+        fn = RUNNERS[lang]
         try:
-            vals = fn(items, d)
-            for it in items:
+            vals = fn(todo, d) if todo else {}
+            for it in todo:
                 res[it["idx"]][lang] = vals[it["idx"]]
         except CompileError:
-            for it in items:
+            for it in todo:
                 try:
                     res[it["idx"]][lang] = fn([it], d)[it["idx"]]
                 except CompileError as e1:
                     res[it["idx"]][lang] = "error: " + " ".join(str(e1).split())[:500]
+        if lang == "cxx":
+            todo = [it for it in items if isinstance(res[it["idx"]]["cxx"], list)]
+            for it in items:
+                if it not in todo:
+                    for l2 in langs:
+                        res[it["idx"]].setdefault(l2, NOT_RUN)
     return res
 
 
-LANGNAME = {"c": "C", "f": "Fortran"}
+LANGNAME = {"c": "C", "f": "Fortran", "py": "Python"}
+LANGKEY = {"c": "c", "f": "f", "py": "pyext"}
+LANGTOOL = {"c": "gcc", "f": "gfortran", "py": "g++ / CPython extension"}
 
 
 def where(it):
     return "%s | %s" % (it["scope"], it["decl"])
 
 
+def emitted_of(it, lang):
+    return {"c": it.get("c_raw"), "f": it.get("f_raw"), "py": it.get("py_lines")}[lang] or []
+
+
 def judge_compiled(ctx, it, r, fails):
-    """Implementation-only verdict for one enum from the three compilers.  Returns 'skipped' | 'ok' | 'bad'."""
+    """Implementation-only verdict for one enum from the compilers.  Returns 'skipped' | 'ok' | 'bad'."""
     cxx = r["cxx"]
     if not isinstance(cxx, list):
         return "skipped"
     verdict = "ok"
-    for lang in ("c", "f"):
+    for lang in ("c", "f", "py"):
+        if lang not in r:
+            continue
         got = r[lang]
-        raw = it["c_raw"] if lang == "c" else it["f_raw"]
+        raw = emitted_of(it, lang)
         if not isinstance(got, list):
             verdict = "bad"
             if len(fails) < MAX_FAILS:
                 what = ("the %s text generated for `%s` (scope %s) does not compile while the C++ original does: %s; emitted: %s"
-                        % (LANGNAME[lang], it["decl"], it["scope"], got, " / ".join(raw)))
-                if ctx.fail("compile-error:%s:%s" % (lang, where(it)), what, {"scope": it["scope"], "decl": it["decl"]}):
+                        % (LANGNAME[lang], it["decl"], it["scope"], got, " / ".join(l.strip() for l in raw)))
+                if ctx.fail("compile-error:%s:%s" % (LANGKEY[lang], where(it)), what, {"scope": it["scope"], "decl": it["decl"]}):
                     fails.append(it["idx"])
             continue
         for k, (n, _t) in enumerate(it["members"]):
             if got[k] != cxx[k]:
                 verdict = "bad"
                 if len(fails) < MAX_FAILS:
+                    line = raw[k].strip() if lang != "py" else " ".join(l.strip() for l in raw if '"%s"' % n in l)
                     what = ("`%s` (scope %s): member %s is %d in C++ (g++) but %d in the generated %s (%s): %s"
-                            % (it["decl"], it["scope"], n, cxx[k], got[k], LANGNAME[lang],
-                               "gcc" if lang == "c" else "gfortran", raw[k].strip()))
-                    if ctx.fail("value-mismatch:%s:%s" % (lang, where(it)), what, {"scope": it["scope"], "decl": it["decl"]}):
+                            % (it["decl"], it["scope"], n, cxx[k], got[k], LANGNAME[lang], LANGTOOL[lang], line))
+                    if ctx.fail("value-mismatch:%s:%s" % (LANGKEY[lang], where(it)), what, {"scope": it["scope"], "decl": it["decl"]}):
                         fails.append(it["idx"])
                 break
     return verdict
+
+
+def classify(it, r):
+    """Per language: 'correct' | 'diagnostic: ...' | 'SILENT-WRONG: ...' against the g++ values of the original."""
+    cxx = r["cxx"]
+    out = {}
+    for lang in ("c", "f", "py"):
+        got = r.get(lang)
+        if got is None:
+            continue
+        if not isinstance(got, list):
+            msg = got
+            m = re.search(r"(?:[Ee]rror:?|error: \S+ error:)\s*(.{0,140})", got)
+            if m:
+                msg = m.group(0)
+            out[lang] = "diagnostic: " + msg[:170]
+        elif got == cxx:
+            out[lang] = "correct"
+        else:
+            out[lang] = "SILENT-WRONG: %s instead of %s" % (got, cxx)
+    return out
+
+
+# ====================================================================== block tie
+def encl(lines):
+    return " ".join(common.enc(l) for l in lines)
+
+
+def first_diff(a, b):
+    for j in range(max(len(a), len(b))):
+        x = a[j] if j < len(a) else None
+        y = b[j] if j < len(b) else None
+        if x != y:
+            return {"index": j, "impl": x, "model": y}
+    return None
+
+
+def block_tie(ctx, drv, live, suspects):
+    """(A) the model's file blocks / Python items vs the real emitter items rendered by the real write_lines;
+    the model's block reader on its own blocks and on the real text."""
+    bitems = [it for it in live if "c_block" in it and "py_items" in it and "block_request" in it]
+    if len(bitems) != len(live):
+        ctx.tie_broken("block-correspondence", "emitters not callable stand-alone for %d enumerations: %s"
+                       % (len(live) - len(bitems), _EMIT_MODE.get("blocks", _EMIT_MODE["mode"])))
+    reqs = []
+    for it in bitems:
+        reqs += [it["block_request"], "evbc " + encl(it["c_block"]), "evbf " + encl(it["f_block"])]
+    ans = drv.run(reqs)
+    bdis, ebc, ebf, rbc, rbf, proto = [], [], [], [], [], []
+    for j, it in enumerate(bitems):
+        a, ac, af = ans[3 * j:3 * j + 3]
+        p = a.split(" ")
+        if p[0] != "ok" or len(p) != 6 or not ac.startswith("ok ") or not af.startswith("ok "):
+            proto.append({"request": it["block_request"], "answers": [a, ac, af]})
+            continue
+        mc, mf, mp = common.decs(p[1]), common.decs(p[2]), common.decs(p[3])
+        it["model_blocks"] = {"c": mc, "f": mf}
+        for part, real, model in (("c-block", it["c_block"], mc), ("fortran-block", it["f_block"], mf), ("python-items", it["py_items"], mp)):
+            if real != model:
+                bdis.append(dict(first_diff(real, model), scope=it["scope"], decl=it["decl"], part=part))
+                suspects.setdefault(it["idx"], "block-correspondence")
+        for vals, bucket, what in ((parse_vals(p[4]), ebc, "model evalBlockC of the model's block"),
+                                   (parse_vals(p[5]), ebf, "model evalBlockF of the model's block")):
+            if vals != it["ref"]:
+                bucket.append({"scope": it["scope"], "decl": it["decl"], "what": what, "values": vals, "reference": it["ref"]})
+                suspects.setdefault(it["idx"], "evalBlock")
+        for vals, bucket, lines in ((parse_vals(ac[3:]), rbc, it["c_block"]), (parse_vals(af[3:]), rbf, it["f_block"])):
+            if vals != it["ref"]:
+                bucket.append({"scope": it["scope"], "decl": it["decl"], "what": "block reader on the real rendered text",
+                               "values": vals, "reference": it["ref"], "lines": lines})
+                suspects.setdefault(it["idx"], "evalBlock")
+    if proto:
+        ctx.tie_broken("driver-protocol", proto[:5])
+    if bdis:
+        ctx.tie_broken("block-correspondence", bdis[:6])
+    if ebc or rbc:
+        ctx.tie_broken("evalBlockC", (ebc + rbc)[:5])
+    if ebf or rbf:
+        ctx.tie_broken("evalBlockF", (ebf + rbf)[:5])
+    ctx.count(3 * len(bitems))
+    ctx.note("blocks", {"enums": len(bitems), "block_or_python_item_differences": len(bdis),
+                        "evalBlockC_model_block": len(ebc), "evalBlockF_model_block": len(ebf),
+                        "evalBlockC_real_text": len(rbc), "evalBlockF_real_text": len(rbf)})
+
+
+# ====================================================================== (C) grammar boundary: diagnostic or correct
+BOUNDARY = ["1 << 3", "A0 | 2", "6 & 3", "~1", "7 % 3", "'a'", "0x10", "1 ^ 2", "(1 << 2) | 1", "sizeof(int)",
+            "1 ? 2 : 3", "!0", "1 < 2", "1 == 1", "1u", "1L", "0b11", "E::A0", "A0 >> 1", "1 && 1", "-1 * ~0"]
+# forms the parser accepts although they are outside the + - * / grammar: (initialiser, C++ text needed before the enum)
+ACCEPTED_FORMS = [("1.5", ""), ("1e2", ""), ("f(1)", "constexpr int f(int x){return x+1;}"), ("N", "const int N = 5;")]
+
+
+def shroud_outcome(scope, decl, d):
+    """Whole program on a YAML with the enum: ("rejected", message) | ("accepted", None) | ("partial", message)."""
+    from tools import shroudrun
+    od = tempfile.mkdtemp(prefix="gb", dir=d)
+    try:
+        p = shroudrun.write_yaml(od, "t.yaml", yaml_for(scope, decl))
+        _cfg, exc, _out = shroudrun.run_inproc([p], od)
+        has = False
+        for fn in sorted(os.listdir(od)):
+            if (fn.startswith("wrap") and fn.endswith(".h")) or (fn.startswith("wrapf") and fn.endswith(".f")):
+                txt = open(os.path.join(od, fn)).read()
+                if re.search(r"^\s*enum \w+ \{", txt, re.M) or "!  enum " in txt:
+                    has = True
+        if exc is not None:
+            msg = "%s: %s" % (type(exc).__name__, " ".join(str(exc).split())[:160])
+            return ("partial", msg) if has else ("rejected", msg)
+        return ("accepted", None)
+    finally:
+        common.rmtree(od)
+
+
+def boundary_oracle(ctx, d):
+    outcome, accepted, idx = {}, [], 900000
+    table = [(v, "", True) for v in BOUNDARY] + [(v, pre, False) for v, pre in ACCEPTED_FORMS]
+    n = 0
+    for v, prelude, strict in table:
+        per_scope = {}
+        for scope in SCOPES:
+            decl = "enum E { A0 = 1, B = %s }" % v
+            replay = {"scope": scope, "decl": decl, "prelude": prelude, "cxxstd": "c++14"}
+            n += 2
+            try:
+                build_real(scope, decl)
+                lib_res = ("accepted", None)
+            except RuntimeError as ex:
+                first = str(ex).strip().split("\n")[0]
+                lib_res = ("rejected", first) if "Parse Error" in str(ex) else ("other", "RuntimeError: " + first)
+            except Exception as ex:  # noqa
+                lib_res = ("other", "%s: %s" % (type(ex).__name__, " ".join(str(ex).split())[:120]))
+            prog_res = shroud_outcome(scope, decl, d)
+            if lib_res[0] == "other" or prog_res[0] == "partial":
+                per_scope[scope] = "NOT-A-DIAGNOSTIC: add_enum %s / whole program %s" % (lib_res, prog_res)
+                ctx.fail("grammar-boundary:" + v, "`%s` (scope %s) is neither rejected with a parse error nor accepted: add_enum -> %s; "
+                         "whole program -> %s" % (decl, scope, lib_res[1], prog_res), replay)
+                continue
+            if lib_res[0] != prog_res[0]:
+                per_scope[scope] = "INCONSISTENT: add_enum %s, whole program %s" % (lib_res[0], prog_res[0])
+                ctx.fail("grammar-boundary:" + v, "`%s` (scope %s): add_enum %s but the whole program %s it"
+                         % (decl, scope, lib_res[0], prog_res[0]), replay)
+                continue
+            if lib_res[0] == "rejected":
+                per_scope[scope] = "rejected: " + lib_res[1]
+                continue
+            it = make_item(idx, scope, decl, "boundary")
+            idx += 1
+            it.update(prelude=prelude, cxxstd="c++14", strict=strict, v=v, replay=replay)
+            why = real_side(it)
+            if why is not None and why[0] == "crash":
+                per_scope[scope] = "NOT-A-DIAGNOSTIC: accepted by the parser, then %s" % why[1]
+                ctx.fail("grammar-boundary:" + v, "`%s` (scope %s) is accepted by the parser, then %s" % (decl, scope, why[1]), replay)
+                continue
+            if strict and (why is not None or "block_request" not in it):
+                ctx.tie_broken("grammar", {"scope": scope, "decl": decl, "why": why})
+            accepted.append(it)
+            per_scope[scope] = "accepted"
+        outcome[v] = per_scope
+    res = compile_batch(accepted, d) if accepted else {}
+    for it in accepted:
+        rr = res[it["idx"]]
+        n += 1
+        v, scope = it["v"], it["scope"]
+        if not isinstance(rr["cxx"], list):
+            outcome[v][scope] = "accepted; the C++ original is rejected by g++ (ill-formed C++, nothing to preserve): " + \
+                " ".join(rr["cxx"].split())[:140]
+            continue
+        cl = classify(it, rr)
+        emitted = {"c": [l.strip() for l in it["c_raw"]], "f": [l.split(":: ", 1)[1] for l in it["f_raw"]]}
+        bad = [l for l in ("c", "f", "py") if cl.get(l, "").startswith("SILENT-WRONG")]
+        diag = [l for l in ("c", "f", "py") if cl.get(l, "").startswith("diagnostic")]
+        if bad or (it["strict"] and diag):
+            outcome[v][scope] = "SILENTLY MIS-EMITTED: %s" % cl
+            ctx.fail("grammar-boundary:" + v,
+                     "`%s` (scope %s) is accepted without a diagnostic and silently mis-emitted: g++ values %s; %s; emitted C %s, Fortran %s"
+                     % (it["decl"], scope, rr["cxx"], cl, emitted["c"], emitted["f"]), it["replay"])
+        elif diag:
+            outcome[v][scope] = "accepted; downstream-diagnostic: " + "; ".join("%s %s" % (LANGNAME[l], cl[l]) for l in ("c", "f", "py") if l in cl) + \
+                "; emitted C %s, Fortran %s" % (emitted["c"], emitted["f"])
+        else:
+            outcome[v][scope] = "accepted-correct"
+    flat = {}
+    for v, ps in outcome.items():
+        vals = set(ps.values())
+        flat[v] = vals.pop() if len(vals) == 1 else ps
+    ctx.count(n)
+    ctx.note("grammar_boundary", flat)
+
+
+def empty_enum_observation(ctx, d):
+    """Boundary observation: an enumeration without members (legal C++) has no enumerator to compare; record what
+    the C emitter writes for it and whether gcc takes it."""
+    from shroud import wrapc
+    try:
+        _parent, node = build_real("lib", "enum E {}")
+        wc = object.__new__(wrapc.Wrapc)
+        wc.enum_impl = []
+        wc.wrap_enum(None, node)
+        block = render_real(wc, list(wc.enum_impl), 0, node.options.C_line_length, "")
+    except Exception as ex:  # noqa
+        ctx.note("empty_enum", "diagnostic: %s: %s" % (type(ex).__name__, ex))
+        return
+    sub = tempfile.mkdtemp(prefix="ee", dir=d)
+    open(os.path.join(sub, "e.c"), "w").write("\n".join(block) + "\nint main(void) { return 0; }\n")
+    rc, out = _sh(["gcc", "-std=c99", "-w", "e.c", "-o", "prog"], sub)
+    ctx.count(1)
+    ctx.note("empty_enum", {"c_block": block, "gcc": "accepted" if rc == 0 else " ".join(out.split())[:200]})
+    if rc != 0:
+        ctx.fail("empty-enum:c-block", "enum E {} (legal C++) is written to the C header as %s, which gcc -std=c99 rejects: %s"
+                 % (block, " ".join(out.split())[:200]), {"scope": "lib", "decl": "enum E {}"})
+
+
+# ====================================================================== (D) range: the assumption "values fit int"
+RANGE_TABLE = [
+    "enum E { A = 2147483647, B }",
+    "enum E { A = 2147483648 }",
+    "enum E { A = 4294967295 }",
+    "enum E { A = 4294967296 }",
+    "enum E { A = -2147483648 }",
+    "enum E { A = -2147483647 - 1, B }",
+    "enum E { A = 2147483647, B = A - 1, C }",
+    "enum E { A = 65536, B = A * 65536 / 2 }",
+    "enum E { A = 2147483647, B = A / 1 + 0, C }",
+    "enum E { A = 017777777777, B }",
+    "enum E { A = 1000000 * 1000 }",
+    "enum E { A = 9223372036854775807 }",
+    "enum class E { A = 2147483648 }",
+    "enum class E { A = 2147483647, B = A - 2147483647 - 1 }",
+]
+
+
+def range_oracle(ctx, d):
+    r = common.rng("c11-range")
+    k = r.randrange(0, 3)
+    decls = list(RANGE_TABLE) + [
+        "enum E { A = %d, B, C, D }" % (2147483647 - k),
+        "enum E { A = -2147483647 - 1 + %d, B = A - %d }" % (k, k),
+        "enum E { A = 46340 * %d }" % (46340 + r.randrange(0, 3)),
+        "enum E { A = %d, B = -A - 1, C = B + %d }" % (2147483647, k),
+    ]
+    items, outcome = [], {}
+    for j, decl in enumerate(decls):
+        it = make_item(910000 + j, SCOPES[j % 3], decl, "range")
+        why = real_side(it)
+        if why is not None and why[0] == "crash":
+            outcome[decl] = {"shroud": "diagnostic: " + why[1][:160]}
+            continue
+        items.append(it)
+    res = compile_batch(items, d) if items else {}
+    for it in items:
+        rr = res[it["idx"]]
+        if not isinstance(rr["cxx"], list):
+            outcome[it["decl"]] = {"cxx": "original rejected by g++: " + " ".join(rr["cxx"].split())[:140]}
+            continue
+        cl = classify(it, rr)
+        outcome[it["decl"]] = dict(cl, cxx=rr["cxx"], scope=it["scope"])
+        for lang in ("c", "f", "py"):
+            if cl.get(lang, "").startswith("SILENT-WRONG"):
+                ctx.fail("range:%s:%s" % (LANGKEY[lang], it["decl"]),
+                         "`%s` (scope %s): values outside int: the generated %s compiles without a diagnostic to other values: %s (g++: %s); emitted: %s"
+                         % (it["decl"], it["scope"], LANGNAME[lang], rr[lang], rr["cxx"], " / ".join(l.strip() for l in emitted_of(it, lang))),
+                         {"scope": it["scope"], "decl": it["decl"]})
+    ctx.count(len(decls))
+    ctx.note("range", outcome)
 
 
 # ====================================================================== run
@@ -824,25 +1260,39 @@ def run(ctx):
             ctx.proof_broken("ShroudVerif.Props.C11", "module file missing")
     ctx.cov["trusted_base"] = [
         "Lean 4.33.0 kernel; axioms within {propext, Classical.choice, Quot.sound}",
-        "hand-written model Model/Enum.lean (PrintNode, PrintNodeIdentifier, int_literal, EnumNode value loops, wrap_enum member "
-        "lines), tied by differential correspondence on generated enumerations",
-        "the model's reading of C / Fortran constant expressions (evalHeaderC, evalModuleF) and of the C++ original (cxxEnum), "
-        "compared with gcc -std=c99 / gfortran -std=f2008 / g++ -std=c++11 on the oracle batches and with an independent "
-        "Python evaluator on every generated enumeration",
-        "g++, gcc, gfortran 12 as the meaning of 'value in C++ / C / Fortran'",
+        "hand-written model Model/Enum.lean (PrintNode, PrintNodeIdentifier, int_literal, EnumNode value loops, the items "
+        "wrapc/wrapf/wrapp.wrap_enum append and their write_lines rendering into the header / module blocks), tied by differential "
+        "correspondence on generated enumerations: member fields, whole blocks, Python items, blocks of the generated files",
+        "the model's reading of C / Fortran constant expressions and blocks (evalHeaderC, evalModuleF, evalBlockC, evalBlockF) and of "
+        "the C++ original (cxxEnum), compared with gcc -std=c99 / gfortran -std=f2008 / g++ -std=c++11 on the oracle batches and with "
+        "an independent Python evaluator on every generated enumeration; the block readers also run on the real rendered text and on "
+        "the blocks cut out of generated files",
+        "g++, gcc, gfortran 12 and CPython 3.12 as the meaning of 'value in C++ / C / Fortran / Python'",
+        "the Python value is the C++ enumerator itself compiled by g++ inside a CPython extension (no model of the Python side beyond "
+        "the exact item strings)",
     ]
     ctx.cov["rule"] = ("corpus + seeded grammar-directed enumerations (expr := term (addop term)*, term := unary (mulop unary)*, "
                        "unary := sign* primary, primary := literal | earlier member | (expr); decimal and octal literals; implicit "
                        "and explicit members; unscoped / class / struct; library, namespace and class scope), parsed by the real "
-                       "parser. One evaluation = one enumeration through EnumNode + both emitters + the model. Non-trivial = an "
-                       "enumeration with a member on the text path (value not an integer literal), a sign directly after an "
-                       "operator, or an octal literal; distinct = distinct driver requests.")
+                       "parser. One evaluation = one enumeration through EnumNode + the three emitters + the model (member request, "
+                       "block request, block readers on the real text). Non-trivial = an enumeration with a member on the text path "
+                       "(value not an integer literal), a sign directly after an operator, or an octal literal; distinct = distinct "
+                       "driver requests. Oracles on the implementation only: Python evaluation of every emitted C/Fortran text; "
+                       "batches through g++ / gcc / gfortran / a CPython extension built from the emitted Python lines; a fixed "
+                       "grammar-boundary table (C++ initialisers outside + - * /: rejected with a parse error or emitted correctly) at "
+                       "the three scopes through add_enum and the whole program; a range table around INT_MAX / INT_MIN (per language: "
+                       "correct, diagnostic or silently wrong).")
     ctx.assumptions += [
-        "values and intermediate results fit the underlying type (int)",
+        "values and intermediate results fit the underlying type (int); outside it the range oracle records per language whether the "
+        "result is correct, a compiler diagnostic or silently wrong (note 'range')",
         "member names are distinct identifiers, also case-insensitively (Fortran)",
-        "the expression tree is taken from the real parser (C09 covers the parser)",
+        "the expression tree is taken from the real parser (C09 covers the parser); initialisers outside the + - * / grammar are "
+        "rejected with a parse error (grammar-boundary table) except real literals, calls and unknown names, which are copied and "
+        "diagnosed by the C / Fortran compiler (note 'grammar_boundary')",
         "the theorems are about the Lean model; the model is validated against the code on the generated enumerations only",
         "member names do not start with an underscore and no generated line exceeds the Fortran line limit (C13)",
+        "Python constants are added under the bare member name: equal member names of two enumerations in one module collide "
+        "(note 'python_name_collision'); values, not names, are the subject of C11",
     ]
 
     r = common.rng("c11")
@@ -930,6 +1380,7 @@ def run(ctx):
             ctx.tie_broken("evalF", evf[:5])
         ctx.note("disagreements", {"members": len(dis), "wf": len(wfbad), "cxx_reference": len(refbad),
                                    "evalC": len(evc), "evalF": len(evf)})
+        block_tie(ctx, drv, live, suspects)
     else:
         ctx.tie_broken("enum-correspondence", "driver not built")
 
@@ -1018,7 +1469,7 @@ def run(ctx):
     d = common.scratch()
     try:
         # whole program: generated header / module carry the same member lines
-        wp_bad, wp_n = [], 0
+        wp_bad, wp_n, fb_bad = [], 0, []
         for it in live:
             if it["idx"] not in wp_set:
                 continue
@@ -1031,17 +1482,51 @@ def run(ctx):
                                 {"scope": it["scope"], "decl": it["decl"]}):
                         fails.append(it["idx"])
                 continue
-            c_found, f_found = got
+            c_found, f_found = got["c_members"], got["f_members"]
             if [parse_c_member(l) for l in c_found] != it["c_lines"] or [parse_f_member(l) for l in f_found] != it["f_lines"]:
                 wp_bad.append({"scope": it["scope"], "decl": it["decl"], "files_c": c_found, "files_f": f_found,
                                "direct_c": it["c_raw"], "direct_f": it["f_raw"]})
+            # the blocks in the generated files: against the direct rendering and against the model's blocks
+            it["file_blocks"] = {"c": got["c_block"], "f": got["f_block"]}
+            for part, key in (("c", "c_block"), ("f", "f_block")):
+                for what, other in (("direct write_lines rendering", it.get(key)), ("model", it.get("model_blocks", {}).get(part))):
+                    if other is not None and other != got[key]:
+                        fb_bad.append(dict(first_diff(got[key], other), scope=it["scope"], decl=it["decl"],
+                                           part="%s block in the generated file vs %s" % (part, what)))
+                        suspects.setdefault(it["idx"], "block-correspondence")
         ctx.count(wp_n)
         if wp_bad:
             ctx.tie_broken("emit-vs-fmtmembers", wp_bad[:5])
-        ctx.note("whole_program", {"enums": wp_n, "differences": len(wp_bad)})
+        if fb_bad:
+            ctx.tie_broken("block-correspondence", fb_bad[:6])
+        # the model's block reader on the text of the generated files
+        fb_items = [it for it in live if "file_blocks" in it]
+        rd_bad = []
+        if have_model and fb_items:
+            reqs = []
+            for it in fb_items:
+                reqs += ["evbc " + encl(it["file_blocks"]["c"]), "evbf " + encl(it["file_blocks"]["f"])]
+            ans = drv.run(reqs)
+            for j, it in enumerate(fb_items):
+                for a, name, part in ((ans[2 * j], "evalBlockC", "c"), (ans[2 * j + 1], "evalBlockF", "f")):
+                    vals = parse_vals(a[3:]) if a.startswith("ok ") else "bad answer " + a
+                    if vals != it["ref"]:
+                        rd_bad.append((name, {"scope": it["scope"], "decl": it["decl"], "what": "block reader on the generated file",
+                                              "values": vals, "reference": it["ref"], "lines": it["file_blocks"][part]}))
+                        suspects.setdefault(it["idx"], "evalBlock")
+            for name in ("evalBlockC", "evalBlockF"):
+                sel = [x[1] for x in rd_bad if x[0] == name]
+                if sel:
+                    ctx.tie_broken(name, sel[:5])
+            ctx.count(len(reqs))
+        ctx.note("whole_program", {"enums": wp_n, "differences": len(wp_bad), "file_block_differences": len(fb_bad),
+                                   "file_blocks_read_by_model": len(fb_items), "file_block_reader_mismatches": len(rd_bad)})
+        chosen += [it for it in live if it["idx"] in suspects and it["idx"] not in {c["idx"] for c in chosen}][:100]
 
         stats = {"enums": 0, "batches": 0, "ok": 0, "bad": 0, "cxx_original_rejected": 0, "rejected_decls": [],
-                 "suspects_added": len(extra), "compilers": "g++ -std=c++11 / gcc -std=c99 / gfortran " + " ".join(FFLAGS)}
+                 "suspects_added": len(extra), "compilers": "g++ -std=c++11 / gcc -std=c99 / gfortran " + " ".join(FFLAGS) +
+                 " / g++ -shared CPython extension with the emitted Python lines"}
+        pyext = {"enums": 0, "values_equal_g++": 0, "compile_or_import_errors": 0, "value_mismatches": 0}
         evbad, validated, cfails = [], 0, []
         for b in range(0, len(chosen), bsize):
             batch = chosen[b:b + bsize]
@@ -1058,6 +1543,13 @@ def run(ctx):
                         stats["rejected_decls"].append({"decl": it["decl"], "error": rr["cxx"]})
                     continue
                 stats[v] += 1
+                pyext["enums"] += 1
+                if not isinstance(rr.get("py"), list):
+                    pyext["compile_or_import_errors"] += 1
+                elif rr["py"] == rr["cxx"]:
+                    pyext["values_equal_g++"] += 1
+                else:
+                    pyext["value_mismatches"] += 1
                 # the same results validate the reference semantics used on the model side
                 if rr["cxx"] != it["ref"]:
                     evbad.append({"decl": it["decl"], "what": "python reference vs g++", "reference": it["ref"], "g++": rr["cxx"]})
@@ -1080,6 +1572,11 @@ def run(ctx):
         stats["evaluator_vs_compiler_mismatches"] = len(evbad)
         stats["validates"] = "cxxEnum/evalHeaderC/evalModuleF agree with g++/gcc/gfortran on %d enums" % validated
         ctx.note("oracle", stats)
+        ctx.note("python_oracle_ext", pyext)
+        ctx.note("python_name_collision", python_name_collision(d))
+        boundary_oracle(ctx, d)
+        empty_enum_observation(ctx, d)
+        range_oracle(ctx, d)
     finally:
         common.rmtree(d)
 
@@ -1108,28 +1605,37 @@ def replay(path):
             except ValueError as e:
                 print("  cannot read declaration:", e)
                 continue
+            if rp.get("prelude"):
+                it["prelude"] = rp["prelude"]
+            if rp.get("cxxstd"):
+                it["cxxstd"] = rp["cxxstd"]
             print("  reference (C++ semantics):", it["ref"])
             why = real_side(it)
             if why is not None:
                 print("  real code:", why)
-                continue
+                if "c_raw" not in it:
+                    continue
             print("  emitted C:")
             for l in c_header_text(it).rstrip("\n").split("\n"):
                 print("    " + l)
             print("  emitted Fortran:")
             for l in it["f_raw"]:
                 print("    " + l)
+            print("  emitted Python:")
+            for l in it.get("py_lines", []):
+                print("    " + l)
             print("  python evaluation  C:", try_values(enum_values_c, it["c_lines"]), " Fortran:", try_values(module_values_f, it["f_lines"]))
             res = compile_batch([it], d)[it["idx"]]
             print("  g++      :", res["cxx"])
             print("  gcc      :", res["c"])
             print("  gfortran :", res["f"])
+            print("  python   :", res["py"])
             if isinstance(res["cxx"], list):
-                for lang in ("c", "f"):
+                for lang in ("c", "f", "py"):
                     if res[lang] != res["cxx"]:
                         print("  -> %s differs from the C++ original" % LANGNAME[lang])
-                if res["c"] == res["cxx"] and res["f"] == res["cxx"]:
-                    print("  -> all three agree")
+                if all(res[lang] == res["cxx"] for lang in ("c", "f", "py")):
+                    print("  -> all agree")
     finally:
         common.rmtree(d)
     return 0
